@@ -55,10 +55,21 @@ T = {
 }
 
 
+SWEEP = (" In addition a breadth sweep (DESIGN.md 12.3): every token of a 226-token inventory (all printable ASCII, control and "
+         "Unicode-space characters, letters with special normalisation / case folding, tokens special to URLs, formats and escaping) in "
+         "every string role of one fixed scenario, near-miss variants of every registered string as queries, twin names registered side by "
+         "side, and count-scaled scenarios (up to 130 records / clashes / prefixes).")
+SWEPT = {"C01", "C02", "C03", "C04", "C06", "C07", "C08", "C09", "C12", "C13", "C14", "C15", "C19"}
+
+
 def main():
     checks, na = [], []
     for pid in sorted(T):
         technique, text, ref = T[pid]
+        if pid in SWEPT:
+            text += SWEEP
+        if pid == "C20":
+            text += " In addition every code point of the Basic Multilingual Plane is placed at every position of 10 templates."
         if os.path.exists(os.path.join(VERIF, "mc", "props", pid.lower() + ".py")):
             checks.append({
                 "property_id": pid,
